@@ -371,6 +371,107 @@ def conversion_routes(rep: Report, ix):
         )
 
 
+# ----------------------------------------------------------------------------
+# (e) every consumer of the rotation matrix applies it as out_i = sum_k v_k R[k, i]
+# ----------------------------------------------------------------------------
+ROTATION_CONSUMERS_PROVED = {
+    ("pde/grids/coordinates/base.py", "CoordinatesBase.vec_to_cart"),
+    ("pde/grids/base.py", "GridBase._vector_to_cartesian"),
+    ("pde/grids/coordinates/base.py", "CoordinatesBase.basis_rotation"),
+}
+
+
+def rotation_consumers(rep: Report, ix):
+    """the rows of basis_rotation are the basis vectors (a): a vector with local components v_k has Cartesian components
+    out_i = sum_k v_k * R[k, i].  The two einsum consumers are proved in (c); any other function that obtains the matrix and
+    combines its entries with components by hand must contract the same index: in a sum of products `R[a, b] * comp_k` that
+    is stored as Cartesian component i, every term needs a == k and b == i (R[i, k] applies the inverse rotation)."""
+    n = 0
+    for f in ix.all_functions():
+        rel = f.module.rel
+        if not rel.startswith("pde/") or rel.startswith("pde/grids/coordinates/") and f.qualname.split(".")[-1] in ("_basis_rotation",):
+            continue
+        if (rel, f.qualname) in ROTATION_CONSUMERS_PROVED:
+            continue
+        own_nested = {id(x) for g in f.nested() for x in ast.walk(g.node)}
+        rots = {}
+        for st in ast.walk(f.node):
+            if id(st) in own_nested:
+                continue
+            if isinstance(st, ast.Assign) and len(st.targets) == 1 and isinstance(st.targets[0], ast.Name) and isinstance(st.value, ast.Call) and isinstance(st.value.func, ast.Attribute) and st.value.func.attr in ("basis_rotation", "_basis_rotation"):
+                rots[st.targets[0].id] = st
+        if not rots:
+            continue
+        n += 1
+        rep.saw("hand-written consumers of the rotation matrix", f.ref)
+        defs: dict[str, ast.expr] = {}
+        for st in ast.walk(f.node):
+            if isinstance(st, ast.Assign) and len(st.targets) == 1:
+                t = st.targets[0]
+                if isinstance(t, ast.Name):
+                    defs[t.id] = st.value
+                elif isinstance(t, ast.Tuple) and isinstance(st.value, ast.Tuple) and len(t.elts) == len(st.value.elts):
+                    for a, b in zip(t.elts, st.value.elts):
+                        if isinstance(a, ast.Name):
+                            defs[a.id] = b
+
+        def comp_index(e, depth=0):
+            """the component k such that e derives from `<data>[k]`"""
+            for x in ast.walk(e):
+                if isinstance(x, ast.Subscript) and isinstance(x.value, ast.Name) and isinstance(const_value(x.slice), int) and x.value.id not in rots and x.value.id in [a.arg for a in f.node.args.args]:
+                    return const_value(x.slice)
+            if depth < 5:
+                for x in ast.walk(e):
+                    if isinstance(x, ast.Name) and x.id in defs and x.id not in rots:
+                        k = comp_index(defs[x.id], depth + 1)
+                        if k is not None:
+                            return k
+            return None
+
+        outs = []
+        for st in ast.walk(f.node):
+            if isinstance(st, ast.Assign) and any(isinstance(x, ast.Subscript) and isinstance(x.value, ast.Name) and x.value.id in rots for x in ast.walk(st.value)):
+                outs.append(st)
+        outs.sort(key=lambda st: st.lineno)
+        if not outs:
+            raise AnalysisError(f"{f.ref}: obtains the rotation matrix but its use is not a sum of products of entries and components")
+        for i, st in enumerate(outs):
+            terms = []
+
+            def flat(e):
+                if isinstance(e, ast.BinOp) and isinstance(e.op, ast.Add):
+                    flat(e.left)
+                    flat(e.right)
+                else:
+                    terms.append(e)
+
+            flat(st.value)
+            bad = []
+            for t in terms:
+                if not (isinstance(t, ast.BinOp) and isinstance(t.op, ast.Mult)):
+                    raise AnalysisError(f"{f.ref}: term `{ast.unparse(t)[:50]}` of the hand-written rotation is not a product")
+                sides = [t.left, t.right]
+                entry = next((x for x in sides if isinstance(x, ast.Subscript) and isinstance(x.value, ast.Name) and x.value.id in rots), None)
+                other = next((x for x in sides if x is not entry), None)
+                if entry is None or not isinstance(entry.slice, ast.Tuple) or len(entry.slice.elts) != 2:
+                    raise AnalysisError(f"{f.ref}: term `{ast.unparse(t)[:50]}` does not use an entry R[a, b]")
+                a, b = const_value(entry.slice.elts[0]), const_value(entry.slice.elts[1])
+                k = comp_index(other)
+                if not isinstance(a, int) or not isinstance(b, int) or k is None:
+                    raise AnalysisError(f"{f.ref}: cannot resolve `{ast.unparse(t)[:50]}` to (entry indices, component)")
+                if a != k or b != i:
+                    bad.append(f"`{ast.unparse(t)}` uses R[{a}, {b}] with local component {k} for Cartesian component {i} (needs R[{k}, {i}])")
+            rep.oblige(f"{f.qualname}: Cartesian component {i} = sum_k v_k * R[k, {i}]", not bad, bad)
+            if bad:
+                rep.violation(
+                    "C19.component-algebra",
+                    f"{f.ref}::hand-written-rotation::component{i}",
+                    f"{bad[0]}: the rows of basis_rotation are the basis vectors, so this applies the inverse rotation (e_r is mapped to (cos phi, -sin phi)); the result disagrees with _vector_to_cartesian",
+                    line=st.lineno,
+                )
+    rep.note(f"hand-written consumers of the rotation matrix judged: {n}")
+
+
 def check(tier: str) -> Report:
     rep = Report("C19", tier, "proof", "sympy identities on extracted coordinate maps (orthonormality, handedness, basis = normalised Jacobian); index-space typing (component order vs coordinate-system order)")
     rep.explanation = (
@@ -398,6 +499,7 @@ def check(tier: str) -> Report:
     component_order_consistency(rep, ix)
     component_algebra(rep, ix)
     conversion_routes(rep, ix)
+    rotation_consumers(rep, ix)
     rep.assumptions += [
         "tensor algebra is interpreted for (dim, grid shape) in {(2,(3,)), (3,(2,)), (3,(2,4))}: the operations are written with einsum ellipses / whole-slice stores and are uniform in the grid axes; numpy indexing, broadcasting and einsum semantics as documented",
         "theta in (0, pi), r > 0, sigma in (0, pi): chart domains of the coordinate systems",
